@@ -895,6 +895,7 @@ func main() {
 		rules = append(rules, k)
 	}
 	sort.Strings(rules)
+	p.Remove() // Finish exits the process: deferred clean-up would not run
 	r.Finish(map[string]interface{}{
 		"states":                            len(stateSet),
 		"transitions":                       int(trans),
